@@ -294,7 +294,9 @@ def judge (ws : List String) (impl : String) : String :=
   | depth :: nprod :: toks =>
     match depth.toNat?, nprod.toNat?, toks.mapM parseTok with
     | some depth, some nprod, some script =>
-      let cfg : TraceProto.Config := { cap := depth, line := fun p i => some (lineOf p i) }
+      -- (the outcome is a sequence of producer/index pairs: the exploration runs with empty lines, the bytes are
+      -- compared below against `lineOf`)
+      let cfg : TraceProto.Config := { cap := depth, line := fun _ _ => some [] }
       let x0 : TraceProto.XState :=
         { s := { TraceProto.init nprod with cons := .writing ⟨primerPid, 0, []⟩ }, permits := 0 }
       let allowed := TraceProto.dedup ((TraceProto.outcomes cfg x0 script).map fun o => o.filter (·.1 != primerPid))
